@@ -66,7 +66,7 @@ def gen_case(rng, tier):
         names = [c["name"] for c in f["cols"]]
         if op in ("select", "unselect"):
             pool = names + (["zz"] if op == "unselect" else [])
-            case["cols"] = rng.sample(pool, rng.randint(0 if op == "unselect" else 1, len(pool)))
+            case["cols"] = rng.sample(pool, rng.randint(0, len(pool)))      # (also no name at all: select() is the frame without columns)
         elif op == "rename":
             frm = rng.sample(names, rng.randint(1, min(2, len(names))))
             if len(frm) == 2 and rng.random() < 0.4:
